@@ -65,7 +65,7 @@ def check(drv, pid, spec, tier, seed, t0):
     for other in REUSE:
         ospec = drv.PROPS[other]
         sub = dict(ospec)
-        # always the other harness' QUICK budget, scaled (quick: 0.1, thorough: 1.0): its thorough budget belongs to its own check
+        # always the other harness' QUICK budget, scaled (quick: 0.1, thorough: 0.3): its thorough budget belongs to its own check
         m = drv.run_harness_tier(pid, sub, "quick", seed, sanitizer_only=True, harness=ospec["harness"], scale=cfg["reuse_scale"], label=other)
         c, u = drv.confirm_failures(pid, m)
         for f in c + u:
